@@ -88,6 +88,17 @@ CHECKS = {
             "Exploration: every generated factory is executed twice in-process and in child interpreters with a different PYTHONHASHSEED "
             "and after a heap-shifting pre-allocation; canonical traces and final statistics must be identical; kernel time and ledger "
             "times never decrease.", "Trusted: SimPy kernel; the outside ledger (instance-level wrappers on every store); harness-supplied delay sources that log every consultation; public stats. Hash-seed and address dependence are sampled, not enumerated.", "DESIGN.md §4 C19"),
+    "C12": ("K", "property-based testing: generated conveyor geometries and producer/consumer scripts, validity predicates on put/offer/get instants",
+            "Exploration: continuous (incl. lengths that are no multiple of the item length) and slotted conveyors, both accumulation "
+            "modes, regular / bursty / irregular arrivals, free flow and stalls, plus conveyors embedded in generated factories; order, "
+            "capacity, entry spacing, minimum travel time and exact free-flow travel time.",
+            "Trusted: SimPy kernel; producer/consumer scripts that put/get at the grant instant; public lists items/ready_items of the belt store. Offer instant = first kernel event after which the item is in ready_items.", "DESIGN.md §4 C12"),
+    "C13": ("K", "property-based testing: generated stall scenarios, differential against a kinematic reference model (continuous positions)",
+            "Exploration: stall-biased producer/consumer scripts on all four conveyor variants; admission and offer instants of every item "
+            "are compared with a co-simulated kinematic model; only the first deviation is classified. Guards free flow on all variants "
+            "and freeze/resume exactness of the non-accumulating continuous belt; listed deviation classes (slotted: K2, accumulating "
+            "continuous: K3) are known findings.",
+            "Trusted: SimPy kernel; producer/consumer scripts that put/get at the grant instant; public lists items/ready_items of the belt store. Same-instant ties between an admission request and the head's arrival are tried both ways.", "DESIGN.md §4 C13"),
 }
 
 NOT_YET = "check not built yet in this session (work in progress; see DESIGN.md §4)"
